@@ -2771,6 +2771,8 @@ class HasTraits(CHasTraits, metaclass=MetaHasTraits):
         n1 = n0 + len(event.removed)
         name = name[:-6]
         info = self.__sync_trait__
+        if name not in info:
+            return
         locked = info[""]
         locked[name] = None
         for object, object_name in info[name].values():
